@@ -247,7 +247,9 @@ func c17RunOne(w *c17World, i int, d c17Desc, start <-chan struct{}, stagger tim
 	opw.Close()
 	select {
 	case out.Output = <-outCh:
-	case <-time.After(5 * time.Second):
+	case <-time.After(30 * time.Second):
+		// (a child of another run that is between fork and exec holds an inherited copy for a moment - seconds on a
+		// saturated machine; a copy that stays is a leak into another sandbox)
 		out.Output = "<output pipe still held open>"
 	}
 	opr.Close()
